@@ -73,8 +73,12 @@ PARTIAL = ('proved at program level (parser trees inside the writer domain of C0
            'chunk list (C10_*_partial). For VALID programs the parser / domain hypotheses are discharged from a derivation in the '
            'reference grammar (vsrc: derives, line_scoped, excl = the side condition of C08_complete, g_no_paren_suffix = finding '
            'C09-paren-suffix-assert, g_no_trailing_sep): C10_output_form_valid, C10_indent_valid, C10_reindent_invariant_valid (both '
-           'layouts), C10_idempotent_valid_partial (first pass without any parser / writer hypothesis; the second pass needs only that the '
-           're-lexed output has a derivation - that it has one, the re-indexed derivation of the input, is NOT proved)')
+           'layouts), C10_idempotent_valid (idempotence in full: luafmt succeeds, its text is lexed and parsed again and the second pass '
+           'writes the same text; no hypothesis about the second pass; behind it the lemma ValidDomainIdem2.output_valid (the text luafmt writes for a valid program '
+           'with tidy gaps is again a valid program within the same conditions, with tidy gaps: the derivation of the input with its '
+           'leaves re-indexed along formatted_as - Proofs/ValidDomainIdem1.v sim_all, ValidDomainIdem2.v)); C10_idempotent_valid_partial '
+           '(the second pass for ANY derivation of the re-lexed text) is kept. Left as hypotheses of the _valid theorems: vsrc '
+           '(incl. excl, g_no_paren_suffix, g_no_trailing_sep) and gaps_tidy / codes_tidy of the token list')
 ASSUMPTIONS = ['indentwidth is an integer (0-8 in the monitor domain); programs are those on which luafmt succeeds (C09 covers success)',
                'interior lines of multi-line block comments and long strings are token content, not layout: re-indentations leave them alone',
                'blank lines before the first line of the file are not "separating lines" (the output may start with up to two)']
@@ -122,9 +126,10 @@ CLAIM = dict(
           "C10_readers_agree_on_trivia) and C10_reindent_bytes (their composition: the re-indentation clause from source bytes with "
           "same_modulo_line_edges as the hypothesis relating the two sources, both parses inside the writer domain); "
           "C10_output_form_valid, C10_indent_valid, "
-          "C10_reindent_invariant_valid, C10_idempotent_valid_partial (the same for every source of the dialect whose lexer tokens have a "
+          "C10_reindent_invariant_valid, C10_idempotent_valid, C10_idempotent_valid_partial (the same for every source of the dialect whose lexer tokens have a "
           "derivation in the reference grammar within excl / g_no_paren_suffix / g_no_trailing_sep: parse, domain and no_trailing_sep follow - "
-          "Proofs/ValidDomain1..6.v, ValidDomainC10.v; the second pass of idempotence still asks for a derivation of the re-lexed text); proved by re-running the walk induction with the counter and the token-stream depth state threaded "
+          "Proofs/ValidDomain1..6.v, ValidDomainC10.v; for idempotence the second pass is covered too: the re-lexed text of luafmt has the derivation of the input "
+          "with its leaves re-indexed, within the same conditions - ValidDomainIdem2.output_valid, Proofs/ValidDomainIdem1.v, ValidDomainIdem2.v); proved by re-running the walk induction with the counter and the token-stream depth state threaded "
           "(Proofs/TokenDepthProofs.v, WriterCursorD.v, AstWriterDepth.v, FmtLineEnd.v). Regex sources, guards, replacement expressions, order, and the whole function text "
           "are regenerated from lua.py on every run and pinned. Tie: the extracted model equals the real method on ALL runs of length "
           "<= 5 (thorough 6) over {space,tab,\\n,\\r,-,/,a} x 4 positions x 3 (width,depth), on random long runs, and on every "
